@@ -1,6 +1,7 @@
 import TwistedProps.C27.Chain
 import TwistedProps.C27.Resolve
 import TwistedProps.C27.Rfc3986
+import TwistedProps.C27.Schedule
 /-!
 C27 — redirect following resolves targets correctly and confines credentials.
 
@@ -213,6 +214,69 @@ theorem same_origin_chain_keeps_all_headers (cfg : Config) (method : String) (ur
   simp only [requests, run_requests] at hreq hall
   exact same_origin_keeps cfg rs _ 0 hall req hreq
 
+/-! ### 5. one agent object, several requests, answers in any interleaving
+
+The four clauses above are about `run`: one request through a fresh agent.  The agent object holds only its
+configuration, so they hold for every request made through a shared agent, in whatever order the inner agent
+answers the requests in flight: `schedule cfg pool sched` (TwistedModel/Http/Redirect.lean) delivers the scripted
+responses chain by chain as `sched` says. -/
+
+/-- **Independence.**  Whatever the other chains are and however the deliveries interleave, once chain `j` has been
+    given as many deliveries as its script is long it has sent exactly the requests of `run` and its caller has seen
+    exactly `run`'s outcome. -/
+theorem interleaving_independent (cfg : Config) (calls : List Call) (sched : List Nat) (j : Nat) (c : Call)
+    (hc : calls[j]? = some c) (hfull : c.resps.length ≤ sched.count j) :
+    ((schedule cfg (calls.map Call.take) sched)[j]?).map Flight.result =
+      some (run cfg c.method c.uri c.headers c.resps) := by
+  rw [schedule_getElem?, List.getElem?_map, hc]
+  simp only [Option.map_some, Call.take]
+  rw [iter_follow cfg c.resps _ 0 _ _ hfull]
+  rfl
+
+/-- a schedule that serves every chain to the end leaves the pool at `runMany` (what the driver prints) -/
+theorem complete_schedule_eq_runMany (cfg : Config) (calls : List Call) (sched : List Nat)
+    (hfull : ∀ j c, calls[j]? = some c → c.resps.length ≤ sched.count j) :
+    (schedule cfg (calls.map Call.take) sched).map Flight.result = runMany cfg calls := by
+  apply List.ext_getElem?
+  intro j
+  rw [List.getElem?_map]
+  cases hc : calls[j]? with
+  | none =>
+    simp [runMany, hc, schedule_getElem?]
+  | some c =>
+    rw [interleaving_independent cfg calls sched j c hc (hfull j c hc)]
+    simp [runMany, hc]
+
+/-- at ANY moment of ANY interleaving, what chain `j` has sent is an initial part of what `run` sends -/
+theorem interleaved_requests_prefix (cfg : Config) (calls : List Call) (sched : List Nat) (j : Nat) (c : Call)
+    (f : Flight) (hc : calls[j]? = some c) (hf : (schedule cfg (calls.map Call.take) sched)[j]? = some f) :
+    f.sent <+: requests cfg c.method c.uri c.headers c.resps := by
+  rw [schedule_getElem?, List.getElem?_map, hc] at hf
+  simp only [Option.map_some, Call.take, Option.some.injEq] at hf
+  subst hf
+  exact iter_sent_prefix cfg _ c.resps _ 0 _
+
+/-- **Confinement under interleaving.**  At any moment of any interleaving of any requests through one agent, a
+    request of chain `j` that carries a header with a sensitive name goes to the origin of chain `j`'s original
+    request — not to that of another request the agent is serving or has served. -/
+theorem interleaved_sensitive_headers_only_to_original_origin (cfg : Config) (calls : List Call)
+    (sched : List Nat) (j : Nat) (c : Call) (f : Flight) (hc : calls[j]? = some c)
+    (hf : (schedule cfg (calls.map Call.take) sched)[j]? = some f)
+    (req : Req) (hreq : req ∈ f.sent)
+    (hs : List Header) (hh : req.headers = some hs) (p : Header) (hp : p ∈ hs)
+    (hsens : p.1 ∈ cfg.sensitive) :
+    req.uri.origin = c.uri.origin :=
+  sensitive_headers_only_to_original_origin cfg c.method c.uri c.headers c.resps req
+    ((interleaved_requests_prefix cfg calls sched j c f hc hf).subset hreq) hs hh p hp hsens
+
+/-- and at most `limit` redirects are followed for each chain, whatever the agent is doing besides -/
+theorem interleaved_at_most_limit_redirects (cfg : Config) (calls : List Call) (sched : List Nat) (j : Nat)
+    (c : Call) (f : Flight) (hc : calls[j]? = some c)
+    (hf : (schedule cfg (calls.map Call.take) sched)[j]? = some f) :
+    f.sent.length ≤ cfg.limit + 1 :=
+  Nat.le_trans (interleaved_requests_prefix cfg calls sched j c f hc hf).length_le
+    (at_most_limit_redirects cfg c.method c.uri c.headers c.resps)
+
 /-! ### non-vacuity: concrete chains -/
 
 def ua : Uri := { scheme := .http, auth := { host := "a", port := none }, path := ["", "x", "y"], query := "", frag := "" }
@@ -281,5 +345,21 @@ example :
     (requests (strict 20 ["x-api-key"]) "GET" ua creds
         [⟨302, [backA]⟩, ⟨302, [toB]⟩, ⟨302, [backA]⟩]).map (·.headers) =
       [creds, creds, some [("accept", "v")], some [("accept", "v")]] := by decide
+
+/-- two requests through one agent, the answers interleaved (chain 0, chain 1, chain 0, chain 1, …): chain 0 is
+    resolved against ITS URIs and chain 1 — to origin `b`, then redirected to `a` — gets no credentials there,
+    exactly as when each runs alone -/
+def ub : Uri := { scheme := .http, auth := { host := "b", port := none }, path := ["", "k"], query := "", frag := "" }
+def callA : Call := { method := "GET", uri := ua, headers := creds, resps := [⟨302, [toB]⟩, ⟨302, [relR]⟩, ⟨200, []⟩] }
+def callB : Call := { method := "GET", uri := ub, headers := creds, resps := [⟨302, [backA]⟩, ⟨200, []⟩] }
+
+example :
+    (schedule (strict 20 []) [callA.take, callB.take] [0, 1, 0, 1, 0, 1]).map Flight.result =
+      runMany (strict 20 []) [callA, callB] ∧
+    ((schedule (strict 20 []) [callA.take, callB.take] [0, 1, 0]).map fun f => f.sent.map fun q => q.uri.text) =
+      [["http://a/x/y", "http://b/p/q", "http://b/p/r"], ["http://b/k", "http://a:80/z"]] ∧
+    ((runMany (strict 20 []) [callA, callB]).map fun t => t.1.map fun q => q.headers) =
+      [[creds, some [("accept", "v"), ("x-api-key", "t")], some [("accept", "v"), ("x-api-key", "t")]],
+       [creds, some [("accept", "v"), ("x-api-key", "t")]]] := by decide
 
 end TwistedProps.C27
